@@ -127,6 +127,41 @@ def observable_registry(n: int, kind: int, dup: int, rem: int):
     cover("reached-end", True)
 
 
+class TearDown:
+    """an observer that reacts to the change by tearing the registry down (a reset from inside a change callback)"""
+
+    def __init__(self, owner):
+        self.owner = owner
+        self.calls = 0
+
+    def __call__(self, sender, old, new):
+        self.calls += 1
+        self.owner.unwatch_all()
+
+
+@harness(prop="C03", target="geckolib.driver.observable:Observable.unwatch_all", name="removal_during_notification_takes_effect_at_once",
+         bounded="1..3 further observers registered after the one that tears down")
+def removal_during_notification_takes_effect_at_once(n: int):
+    """'removed observers are never called': also when the removal happens while a notification is being delivered"""
+    requires(both(1 <= n, n <= 3))
+    n = concrete_cases(n, 1, 3)
+    o = Observable()
+    first = Recorder(None)
+    o.watch(first)
+    t = TearDown(o)
+    o.watch(t)
+    later = make_observers(0, n)
+    for x in later:
+        o.watch(x)
+    o._on_change("sender", 1, 2)
+    ensures("observers-before-the-removal-were-called-once", both(len(first.calls) == 1, t.calls == 1))
+    for x in later:
+        ensures("observers-removed-mid-notification-are-not-called", len(x.calls) == 0)
+    ensures("registry-is-empty", not o.has_observers)
+    o._on_change("sender", 3, 4)
+    ensures("nobody-is-called-afterwards", both(len(first.calls) == 1, t.calls == 1))
+
+
 # ------------------------------------------------------------------ temperature items
 from geckolib.driver.accessor import GeckoStructAccessor, GeckoTempStructAccessor, GeckoEnumStructAccessor
 
